@@ -133,6 +133,66 @@ def run(ctx):
                                "a write at %s can run although the earlier write at %s failed (its result is not tested on "
                                "every path between them): the sink receives bytes after reporting an error" % (
                                    f.tloc(w2.bb), f.tloc(w1.bb)), f.where(w2.bb))
+        # O6b (round 13, seed C19-13): the same everywhere a formatter or the output is handed on.  In any function of
+        # the engine a call that receives the formatter / output (directly, or in the argument tuple of a closure call:
+        # `let rv = body(f); f.write_str(close)?; rv`) and returns a Result counts as a write; "run the body, do the
+        # closing step, return the body's result" is right for cleanups and wrong for writes.
+        def _is_sink(t):
+            return (t.get("adt") in (OUT, "core::fmt::Formatter") or "fmt::Formatter" in t.get("s", "")) and (t.get("refs", 0) >= 1 or "&mut" in t.get("s", ""))
+
+        def _gets_sink(f, c):
+            for a in c.args:
+                p_ = op_place(a)
+                if p_ is None or "p" in p_:
+                    continue
+                if _is_sink(f.locals[p_["l"]]):
+                    return True
+                for o in flow.origins(f, a):
+                    if o.kind == "agg" and o.rv.get("agg") == "tuple":
+                        for x in o.rv["ops"]:
+                            q_ = op_place(x)
+                            if q_ is not None and "p" not in q_ and _is_sink(f.locals[q_["l"]]):
+                                return True
+            return False
+        n6b = 0
+        for f in prog.fns.values():
+            if f.crate != "minijinja" or f.loc.f.endswith(("minijinja/src/utils.rs", "minijinja/src/output.rs")):
+                continue
+            if not any(_is_sink(f.locals[l]) for l in range(1, f.argc + 1)):
+                continue
+            ws = [c for c in f.calls() if c.dest is not None and "p" not in c.dest and result_ty(f, c.dest) and (
+                c.name in FW or c.path in FW or _gets_sink(f, c))]
+            if len(ws) < 2:
+                continue
+            tests = {}
+            for w in ws:
+                l_ = w.dest["l"]
+                bl_ = set()
+                for _hop in range(3):
+                    sp = errflow.result_split(f, l_)
+                    bl_ = {sb for (sb, none_t, some_t, other, adt) in (sp.switches if sp else [])}
+                    if bl_:
+                        break
+                    # the verdict converted on its way to the test (`out.write_str(v).map_err(Error::from)`)
+                    nxt = [k for k in f.calls() if k.name.endswith(("Result::map_err", "Result::map")) and k.args
+                           and op_place(k.args[0]) == {"l": l_} and k.dest is not None and "p" not in k.dest]
+                    if len(nxt) != 1:
+                        break
+                    l_ = nxt[0].dest["l"]
+                tests[w.bb] = bl_
+            for w1 in ws:
+                for w2 in ws:
+                    if w1 is w2 or w1.bb == w2.bb or not cfg.can_reach(f, w1.target if w1.target is not None else w1.bb, w2.bb):
+                        continue
+                    n6b += 1
+                    ok6 = bool(tests[w1.bb]) and cfg.paths_must_pass(f, w1.target if w1.target is not None else w1.bb,
+                                                                     tests[w1.bb], [w2.bb])
+                    if not ok6:
+                        ctx.ob("C19.O6.no-write-after-a-failed-write", "%s%s|%s after %s" % (tag, f.path, w2.name.split("::")[-1], w1.name.split("::")[-1]), False,
+                               "a write at %s can run although the earlier write at %s failed (its result is not tested on "
+                               "every path between them): the sink receives bytes after reporting an error" % (
+                                   f.tloc(w2.bb), f.tloc(w1.bb)), f.where(w2.bb))
+        ctx.count("C19.O6b ordered pairs of sink-receiving calls checked outside utils / output" + tag, n6b)
         ctx.count("C19.O6 ordered pairs of writes checked" + tag, n6)
         ctx.ob("C19.O6.no-write-after-a-failed-write", tag + "all-escaping-and-output-functions", True, "pairs checked: %d" % n6, "")
         # O2
